@@ -1,0 +1,52 @@
+//go:build verif
+
+// Licensed to LinDB under one or more contributor
+// license agreements. See the NOTICE file distributed with
+// this work for additional information regarding copyright
+// ownership. LinDB licenses this file to you under
+// the Apache License, Version 2.0 (the "License"); you may
+// not use this file except in compliance with the License.
+// You may obtain a copy of the License at
+//
+//     http://www.apache.org/licenses/LICENSE-2.0
+//
+// Unless required by applicable law or agreed to in writing,
+// software distributed under the License is distributed on an
+// "AS IS" BASIS, WITHOUT WARRANTIES OR CONDITIONS OF ANY
+// KIND, either express or implied.  See the License for the
+// specific language governing permissions and limitations
+// under the License.
+
+package version
+
+// This file only exists with the "verif" build tag. It lets the external
+// verification harness (C02) run a callback at the point where a version whose
+// reference count dropped to zero is about to be removed from the family's active
+// versions (between version.Release's decrement and familyVersion.removeVersion);
+// the callback may only wait, it changes no behaviour.
+
+// verifGatedFamilyVersion forwards everything to the wrapped family version.
+type verifGatedFamilyVersion struct {
+	FamilyVersion
+	gate func(v Version)
+}
+
+func (g *verifGatedFamilyVersion) removeVersion(v Version) {
+	g.gate(v)
+	g.FamilyVersion.removeVersion(v)
+}
+
+// VerifGateRemoveVersion makes the family's current version, and every version cloned
+// from it later, call gate before asking the family version to remove a version.
+// Must be called while nothing else uses the family.
+func VerifGateRemoveVersion(fv FamilyVersion, gate func(v Version)) {
+	f, ok := fv.(*familyVersion)
+	if !ok || gate == nil {
+		return
+	}
+	f.mutex.Lock()
+	defer f.mutex.Unlock()
+	if cur, ok := f.current.(*version); ok {
+		cur.fv = &verifGatedFamilyVersion{FamilyVersion: f, gate: gate}
+	}
+}
